@@ -85,6 +85,9 @@ def _check_main(run, P):
              "positional argument in order and every keyword argument under its own name; "
              "the Python printer prints them likewise", minimum=5)
     run.do(_calls, run, P)
+    run.rule("C01.setup", "set_up: both back ends start from the same store - t and dt from "
+             "the arguments, every entry X of the context as <state>X", minimum=5)
+    run.do(_setup, run, P)
     run.do(_handlers, run, P)
     run.do(_driver, run, P)
     run.do(_step, run, P)
@@ -1095,6 +1098,76 @@ def power_rule(run, P, rule, cls_fq):
                      f"precedence {base_prec}, '**' has {consts['PREC_POWER']}",
            why="'**' associates to the right in the target: (a**b)**c printed as "
                "a**b**c evaluates a**(b**c)")
+
+
+def _setup(run, P):
+    f = P.func(f"{INTERP}.set_up")
+    ctx = f.params[3]
+    stores = {}
+    for s_ in ast.walk(f.node):
+        if isinstance(s_, ast.Assign) and len(s_.targets) == 1 and isinstance(s_.targets[0], ast.Subscript) \
+                and dotted(s_.targets[0].value) == "self.context":
+            stores[norm(s_.targets[0].slice)] = s_
+    for key, param in (("'<t>'", f.params[1]), ("'<dt>'", f.params[2])):
+        s_ = stores.get(key)
+        run.ob("C01.setup", f, s_ if s_ is not None else f.node,
+               s_ is not None and dotted(s_.value) == param,
+               construct=f"interpreter: self.context[{key}] = {param}",
+               why="the starting time / step size of the run")
+    loops = [lp for lp in ast.walk(f.node) if isinstance(lp, ast.For)
+             and norm(lp.iter) == f"{ctx}.items()" and isinstance(lp.target, ast.Tuple)
+             and len(lp.target.elts) == 2]
+    ok = False
+    site = f.node
+    if loops:
+        k, v = (e.id for e in loops[0].target.elts)
+        for s_ in ast.walk(loops[0]):
+            if isinstance(s_, ast.Assign) and isinstance(s_.targets[0], ast.Subscript) \
+                    and dotted(s_.targets[0].value) == "self.context":
+                site = s_
+                sl = s_.targets[0].slice
+                ok = isinstance(sl, ast.BinOp) and isinstance(sl.op, ast.Add) \
+                    and string_value(sl.left) == "<state>" and dotted(sl.right) == k \
+                    and dotted(s_.value) == v
+    run.ob("C01.setup", f, site, ok,
+           construct=f"interpreter: for key, val in {ctx}.items(): self.context['<state>' + key] = val",
+           why="every component the caller supplies becomes the persistent variable of that name")
+    g = P.func(f"{PYGEN}._emit_set_up")
+    tmpl = [x for x in ast.walk(g.node) if isinstance(x, ast.Call) and isinstance(x.func, ast.Attribute)
+            and x.func.attr == "format" and isinstance(x.func.value, ast.Constant)
+            and "context.get" in str(x.func.value.value)]
+    ok = False
+    detail = "?"
+    if tmpl:
+        t = tmpl[0]
+        text = t.func.value.value
+        kws = {k_.arg: k_.value for k_ in t.keywords}
+        import re as _re
+        m_ = _re.fullmatch(r"\{(\w+)\} = context\.get\(\"\{(\w+)\}\"\)", text)
+        detail = text
+        if m_:
+            comp, cid = kws.get(m_.group(1)), kws.get(m_.group(2))
+            # the key is the variable name without its '<state>' tag, the target the managed global
+            lp = [x for x in ast.walk(g.node) if isinstance(x, ast.For) and any(t is y for y in ast.walk(x))]
+            lv = lp[0].target.id if lp and isinstance(lp[0].target, ast.Name) else None
+            src = ast.unparse(lp[0]) if lp else ""
+            strip_ok = (f"{lv}[7:]" in src or f"{lv}[len('<state>'):]" in src
+                        or f"{lv}.removeprefix('<state>')" in src) and f"{lv}.startswith('<state>')" in src
+            comp_ok = comp is not None and "name_global" in ast.unparse(
+                comp if not isinstance(comp, ast.Name) else
+                next((s_.value for s_ in ast.walk(g.node) if isinstance(s_, ast.Assign)
+                      and dotted(s_.targets[0]) == comp.id), comp))
+            ok = strip_ok and comp_ok and cid is not None
+    run.ob("C01.setup", g, tmpl[0] if tmpl else g.node, ok,
+           construct=f"generated: <managed name of <state>X> = context.get(\"X\") for every "
+                     f"<state> variable ({detail})",
+           why="the generated stepper must read the same entry of the context the interpreter "
+               "stores under <state>X")
+    tz = [x for x in ast.walk(g.node) if isinstance(x, ast.Constant) and x.value in ("self.t = t_start",
+                                                                                  "self.dt = dt_start")]
+    run.ob("C01.setup", g, g.node, len(tz) == 2,
+           construct="generated: self.t = t_start, self.dt = dt_start",
+           why="the starting time / step size of the run")
 
 
 def _calls(run, P):
